@@ -105,7 +105,8 @@ pub fn run_op(op: &Value) -> Value {
       let ck = if op["manifest_checksum_usable"].as_bool().unwrap_or(true) { format!("sha256-{}", "1".repeat(64)) } else { "md5-0".to_string() };
       format!(r#""/mod.ts":{{"size":0,"checksum":"{ck}"}}"#)
     } else { String::new() };
-    Some(format!(r#"{{"exports":{{".":"./mod.ts"}},"manifest":{{{entry}}}}}"#))
+    let mg2 = if op["embedded_info"].as_bool().unwrap_or(false) { r#","moduleGraph2":{"/mod.ts":{}}"# } else { "" };
+    Some(format!(r#"{{"exports":{{".":"./mod.ts"}},"manifest":{{{entry}}}{mg2}}}"#))
   } else { None };
   let dep = DependencyDescriptor::Static(StaticDependencyDescriptor {
     kind: StaticDependencyKind::Import, types_specifier: None, specifier: import.to_string(), specifier_range: PositionRange::zeroed(),
@@ -165,6 +166,9 @@ pub fn run_op(op: &Value) -> Value {
     _ => None,
   };
   let calls: Vec<Value> = loader.calls.borrow().iter().map(|c| json!({"cache_setting": c["cache_setting"], "checksum": c["checksum"]})).collect();
+  if op.get("only_referrer_flag").is_some() {
+    return json!({"err_has_referrer": err_has_referrer});
+  }
   if op.get("serialize").is_some() {
     let text = serde_json::to_string(&graph).unwrap();
     return json!({"calls": calls, "result": result, "internal_error_in_serialisation": text.contains("INTERNAL ERROR")});
